@@ -63,7 +63,9 @@ SpPool == {<<<<"x", 1>>>>, <<<<"x", 2>>>>, <<<<"x", 3>>>>, <<<<"x", 2>>, <<"t", 
            <<<<"t", 1>>>>, <<<<"k", 1>>, <<"x", 3>>, <<"t", 1>>>>}
 ExhSpace == {[tabs |-> <<TabOf(sa, 1, 0), TabOf(sb, 1, 1000)>>,
               ops |-> <<[Op0 EXCEPT !.a = "space", !.t = 1, !.u = 2], [Op0 EXCEPT !.a = "space", !.t = 2, !.u = 1]>>] : sa \in SpPool, sb \in SpPool}
-ExhScen == Exh1 \cup Exh2 \cup ExhSet \cup ExhGet4 \cup ExhSpace
+\* repeat with two counts on the two-axis table (n = 10 * n1 + n2), and with one count
+ExhRep == {[tabs |-> <<Tab2>>, ops |-> <<[Op0 EXCEPT !.a = "repeat2", !.t = 1, !.n = 10 * n1 + n2]>>] : n1 \in 1..2, n2 \in 1..3}
+ExhScen == Exh1 \cup Exh2 \cup ExhSet \cup ExhGet4 \cup ExhSpace \cup ExhRep
 
 \* ---- histories
 R(S) == RandomElement(S)
